@@ -172,8 +172,46 @@ class ComputeTypeVisitor(Visitor.DefaultVisitor):
                 expr.SetType(expr.GetOperator().GetReturnType())
             elif isinstance(expr, ast.AffixExpression):
                 expr.SetType(expr.children[0].GetType())
+            elif isinstance(expr, ast.ConstructPrimitiveExpression):
+                self._ValidateConstructorArguments(expr)
 
         return expr.GetType()
+
+    def _ValidateConstructorArguments(self, expr):
+        """The arguments must provide exactly the components of the
+        constructed type: one scalar for a scalar, scalars and vectors with
+        the right total number of components for a vector, and one row vector
+        per row for a matrix."""
+        targetType = expr.GetType()
+        argumentTypes = [argument.GetType() for argument in expr]
+
+        def IsScalarOrVector(t):
+            return t.IsPrimitive() and (t.IsScalar() or t.IsVector())
+
+        if targetType.IsScalar():
+            valid = len(argumentTypes) == 1 and (
+                argumentTypes[0].IsPrimitive() and argumentTypes[0].IsScalar()
+            )
+        elif targetType.IsVector():
+            valid = all(IsScalarOrVector(t) for t in argumentTypes) and (
+                sum(
+                    1 if t.IsScalar() else t.GetComponentCount()
+                    for t in argumentTypes
+                )
+                == targetType.GetComponentCount()
+            )
+        else:
+            valid = len(argumentTypes) == targetType.GetRowCount() and all(
+                t.IsPrimitive()
+                and t.IsVector()
+                and t.GetComponentCount() == targetType.GetColumnCount()
+                for t in argumentTypes
+            )
+
+        if not valid:
+            Errors.ERROR_INVALID_CONSTRUCTOR_ARGUMENTS.Raise(
+                targetType, ", ".join(str(t) for t in argumentTypes)
+            )
 
     def v_VariableDeclaration(self, decl, ctx):
         assert isinstance(decl, ast.VariableDeclaration)
